@@ -155,6 +155,7 @@ theorem step_count {n : Nat} {s s' : State} {w : Nat} (hs : Step n s w s') (ih :
   cases hs
   all_goals
     rename_i hw hpc
+    try simp only [counterStep, quiescentCount] at *
     obtain ⟨r, h1, h2⟩ := sumTo_split (Pc.counted ∘ s.pc) hw
     obtain ⟨q, h3, h4⟩ := sumTo_split (Pc.zeroed ∘ s.pc) hw
     simp only [CountInv, comp_upd, h2, h4]
